@@ -8,7 +8,7 @@ PROOF_MODULES = ["GrpcProofs.Properties.C44"]
 THEOREMS = ["GrpcProofs.C44." + t for t in (
     "fallback_only_if_failed_before_any_response_and_uncached_watch", "fallback_needs_uncached_watch",
     "fallback_if", "no_fallback_otherwise",
-    "channels_are_prefix_up_to_active", "fallback_goes_to_next",
+    "no_channel_below_active", "channels_are_prefix_up_to_active", "fallback_goes_to_next", "revert_releases_behind_a_gap",
     "revert_on_higher_priority_update_releases_lower", "update_from_active_keeps_servers",
     "updates_below_active_ignored")]
 DESIGN_REF = "DESIGN.md section 8, C44"
@@ -22,8 +22,13 @@ LEVEL_TEXT = ("Machine-checked proof that in the model of the authority the acti
               "servers, failures after a response, and failures with everything cached never move it; that in every history the "
               "channels held are exactly servers 0..active and a fallback goes to active+1; that an update from a higher-priority "
               "server makes it active, is processed, and unsubscribes + releases every server below it; and that updates from below "
-              "the active server change nothing and reach nobody. The model is replayed against the real client on every run.")
-LEVEL_NOTE = ("Full statement since /repo 98104fb (handleADSStreamFailure now requires the failing server to be the active one); before "
+              "the active server change nothing and reach nobody; that in EVERY history (failing transport creations, which make fallback "
+              "skip a server, and stale reports included) the authority never holds a channel below its active server. The model is replayed "
+              "against the real client on every run.")
+LEVEL_NOTE = ("Transport-creation faults are modelled (Auth.nobuild / event env; an existing shared channel is reused without building): "
+              "fallback skips an unbuildable server, channels_are_prefix_up_to_active holds for fault-free histories, "
+              "no_channel_below_active and the revert theorem for all. The harness client has a second authority `b` sharing the "
+              "channels. Full statement since /repo 98104fb (handleADSStreamFailure now requires the failing server to be the active one); before "
               "it the first theorem was _partial with a counterexample theorem, findings F40 (non-active failure) and F41 (stale report "
               "of a released channel), both now `fixed` in known_findings/C44.jsonl; reverting that commit makes this check report the "
               "violation again with a failing input. Observations that are NOT clauses of C44 (kept in the notes, reproduced on the real "
@@ -34,8 +39,9 @@ LEVEL_NOTE = ("Full statement since /repo 98104fb (handleADSStreamFailure now re
               "watch_during_fallback_is_lost_on_revert, patch in known_findings/patches).")
 GAP = ("the order in which same-instant reports of different channels reach the authority (fixed by the harness pacing: lowest server "
        "first); multi-authority sharing of channels; real transports")
-ASSUMPTIONS = ["transport creation (TransportBuilder.Build) never fails", "backoff constant 1 s, watch expiry 2505 ms (harness configuration)"]
-RULE = ("half directed skeletons (primary down at start / stream break before or after the first response / everything cached / two "
+ASSUMPTIONS = ["backoff constant 1 s, watch expiry 2505 ms (harness configuration)"]
+RULE = ("half directed skeletons (a transport that cannot be created (op nobuild) leaves a gap in the fallback chain and then a higher-"
+        "priority server returns — seeded change C44-seed11 / primary down at start / stream break before or after the first response / everything cached / two "
         "updates queued behind a busy serializer / a failure report queued behind the update that releases its channel / watch during "
         "fallback then revert) with a random tail, half random histories as for C43; 1-3 servers. Non-trivial: the active server takes "
         "at least two different values; distinct = distinct op list")
@@ -46,8 +52,24 @@ _c43 = load_prop("C43")
 def directed(rng, n):
     """Scenario skeletons around fallback / revert, randomly perturbed."""
     ops = []
-    k = rng.randrange(6)
+    k = rng.randrange(8)
     names = _c43.NAMES
+    if k >= 6:      # a transport that cannot be created leaves a gap in the fallback chain; then a higher server returns
+        if n < 3:
+            k = rng.randrange(6)
+        else:
+            gap = rng.choice([1, 1, 2])
+            ops += ["nobuild %d" % gap, "down 0", "watch T r1 1"]
+            if gap == 2:
+                ops += ["down 1"]
+            if rng.random() < 0.5:
+                ops += ["watch T b_r1 2"]
+            ops += ["sleep %d" % rng.choice([10, 1000])]
+            if rng.random() < 0.7:
+                ops += ["nobuild -"]
+            ops += ["up 0", "up 1", "sleep 1000", "respond %d T v1 r1:ok:c1,b_r1:ok:c2" % rng.choice([0, 0, 1]),
+                    "sleep 1000", "respond 0 T v2 r1:ok:c2"]
+            return ops
     if k == 0:      # primary down at start, fallback chain, primary comes back
         ops += ["down 0", "watch T r1 1"]
         if n == 3 and rng.random() < 0.5:
